@@ -14,3 +14,917 @@ Qed.
    non-covering envelope is cached for the same (root key, SD, L0) *)
 Lemma root_overwrites : k_cache_root_overwrites = true.
 Proof. reflexivity. Qed.
+
+(* =====================================================================================
+   C10 proper: a state-machine invariant over atomic steps, hence over every history and
+   every interleaving of async calls at await granularity.
+   The two lemmas above are the ONLY place where the regenerated kernels are looked into:
+   everything below goes through get_key_cases / store_key_cases. *)
+From V Require Import Proofs.C02.
+
+Section C10.
+Context {K RK : Type}.
+Context (kdf : Z -> Z -> K -> Z -> Z -> K).
+Context (l1seed : RK -> Z -> Z -> Z -> K).
+Context (nokey : K).
+Context (dc : Z -> option Z -> Z -> Z -> Z -> cenv (K := K)).
+Context (truth : Z -> RK).           (* ground truth: the real root key data of each root key id *)
+
+Notation cenvK := (cenv (K := K)).
+Notation cacheT := (cache (K := K) (RK := RK)).
+Notation worldT := (world (K := K) (RK := RK)).
+Notation eventT := (event (RK := RK)).
+Notation get_key' := (get_key l1seed nokey).
+Notation step' := (step kdf l1seed nokey dc).
+Notation run' := (run_events kdf l1seed nokey dc).
+Implicit Types (c : cacheT) (e x y : cenvK) (w : worldT) (ev : eventT).
+
+Definition top (rk sd l0 : Z) : K := l1seed (truth rk) rk sd l0.
+(* the key a secret at (rk, sd, l0, l1, l2) is really protected with (MS-GKDI chain) *)
+Definition key_at (rk sd l0 l1 l2 : Z) : K := K2 (kdf rk l0) (top rk sd l0) l1 l2.
+Definition cenv_env (e : cenvK) : env :=
+  {| e_l1 := c_l1 e; e_l2 := c_l2 e; e_l1key := c_k1 e; e_l2key := c_k2 e |}.
+
+(* a private envelope that is conforming for the triple (c_rk e, sd, c_l0 e) *)
+Definition conf (sd : Z) (e : cenvK) : Prop :=
+  c_pub e = false /\ conforming (kdf (c_rk e) (c_l0 e)) (top (c_rk e) sd (c_l0 e)) (cenv_env e).
+(* ... whose L2 key field is filled in also at L2 = 31 *)
+Definition adm (sd : Z) (e : cenvK) : Prop :=
+  conf sd e /\ c_k2 e = key_at (c_rk e) sd (c_l0 e) (c_l1 e) (c_l2 e).
+
+(* ---- what is assumed of the domain controller ---- *)
+(* a request that names a root key and an explicit position is answered for that position *)
+Definition dc_explicit_ok : Prop :=
+  forall sd rk l0 l1 l2, 0 <= l0 -> 0 <= l1 <= 31 -> 0 <= l2 <= 31 ->
+  let e := dc sd (Some rk) l0 l1 l2 in c_rk e = rk /\ c_l0 e = l0 /\ c_l1 e = l1 /\ c_l2 e = l2.
+(* every private reply is an MS-GKDI conforming envelope of the true root key for the position it
+   names.  The last clause is the "DC always sends the L2 key" assumption (MS-GKDI makes the field
+   optional at L2 = 31); envelopes without it are the candidate defect D13 handled under C17. *)
+Definition dc_conforming_ok : Prop :=
+  forall sd rko l0 l1 l2, let e := dc sd rko l0 l1 l2 in
+  c_pub e = false ->
+  0 <= c_l1 e <= 31 /\ 0 <= c_l2 e <= 31 /\
+  conforming (kdf (c_rk e) (c_l0 e)) (top (c_rk e) sd (c_l0 e)) (cenv_env e) /\
+  c_k2 e = K2 (kdf (c_rk e) (c_l0 e)) (top (c_rk e) sd (c_l0 e)) (c_l1 e) (c_l2 e).
+
+(* ---- positions ---- *)
+Definition covers_at (e : cenvK) (l1 l2 : Z) : Prop := c_l1 e > l1 \/ (c_l1 e = l1 /\ c_l2 e >= l2).
+Definition pos_le (a b : cenvK) : Prop := c_l1 a < c_l1 b \/ (c_l1 a = c_l1 b /\ c_l2 a <= c_l2 b).
+Definition pos_lt (a b : cenvK) : Prop := c_l1 a < c_l1 b \/ (c_l1 a = c_l1 b /\ c_l2 a < c_l2 b).
+
+(* the envelope _get_key builds from a loaded root key *)
+Definition root_gke (d : RK) (rk sd l0 : Z) : cenvK :=
+  {| c_rk := rk; c_l0 := l0; c_l1 := 31; c_l2 := 31; c_pub := false; c_k1 := l1seed d rk sd l0; c_k2 := nokey |}.
+
+(* ---- the interface to the regenerated kernels ---- *)
+Lemma get_key_cases (c : cacheT) sd rk l0 l1 l2 :
+  (exists e, find_seed (seeds c) (rk, sd, l0) = Some e /\ covers_at e l1 l2 /\
+             get_key' c sd rk l0 l1 l2 = (Some e, c))
+  \/ ((forall e, find_seed (seeds c) (rk, sd, l0) = Some e -> ~ covers_at e l1 l2) /\
+      ((exists d, find_root (roots c) rk = Some d /\
+                  get_key' c sd rk l0 l1 l2 = (Some (root_gke d rk sd l0), set_seed c (rk, sd, l0) (root_gke d rk sd l0)))
+       \/ (find_root (roots c) rk = None /\ get_key' c sd rk l0 l1 l2 = (None, c)))).
+Proof.
+  destruct kernels_meaning as (Hc & _ & H1 & H2 & Hf).
+  unfold get_key, covers_at, root_gke. rewrite root_overwrites, H1, H2, Hf. rewrite Z.eqb_refl. cbn [negb]. cbv zeta.
+  destruct (find_seed (seeds c) (rk, sd, l0)) as [x|] eqn:E.
+  - destruct (k_cache_covers true (c_l1 x) l1 (c_l2 x) l2) eqn:Ecov.
+    + left. exists x. apply Hc in Ecov. destruct Ecov as [_ Hcov]. auto.
+    + right. split.
+      * intros e He Hcov. assert (x = e) by congruence. subst e.
+        assert (k_cache_covers true (c_l1 x) l1 (c_l2 x) l2 = true) by (apply Hc; auto). congruence.
+      * destruct (find_root (roots c) rk) as [d|] eqn:R; [left; exists d; auto | right; auto].
+  - destruct (k_cache_covers false 0 l1 0 l2) eqn:Ecov.
+    + apply Hc in Ecov. destruct Ecov; discriminate.
+    + right. split; [intros e He; discriminate|].
+      destruct (find_root (roots c) rk) as [d|] eqn:R; [left; exists d; auto | right; auto].
+Qed.
+
+Lemma store_key_cases (c : cacheT) sd e :
+  (store_key c sd e = set_seed c (c_rk e, sd, c_l0 e) e /\
+   forall x, find_seed (seeds c) (c_rk e, sd, c_l0 e) = Some x -> pos_lt x e)
+  \/ (store_key c sd e = c /\ exists x, find_seed (seeds c) (c_rk e, sd, c_l0 e) = Some x /\ pos_le e x).
+Proof.
+  destruct kernels_meaning as (_ & Hs & _).
+  unfold store_key, pos_lt, pos_le. cbv zeta.
+  destruct (find_seed (seeds c) (c_rk e, sd, c_l0 e)) as [x|] eqn:E.
+  - destruct (k_cache_store true (c_l1 e) (c_l1 x) (c_l2 e) (c_l2 x)) eqn:Es.
+    + left. split; [reflexivity|]. intros y Hy. assert (x = y) by congruence. subst y.
+      apply Hs in Es. destruct Es as [Es|Es]; [discriminate|lia].
+    + right. split; [reflexivity|]. exists x. split; [reflexivity|].
+      assert (~ (c_l1 e > c_l1 x \/ (c_l1 e = c_l1 x /\ c_l2 e > c_l2 x))) as Hn.
+      { intros Hn. assert (k_cache_store true (c_l1 e) (c_l1 x) (c_l2 e) (c_l2 x) = true) by (apply Hs; auto). congruence. }
+      lia.
+  - destruct (k_cache_store false (c_l1 e) 0 (c_l2 e) 0) eqn:Es.
+    + left. split; [reflexivity|]. intros y Hy. discriminate.
+    + assert (k_cache_store false (c_l1 e) 0 (c_l2 e) 0 = true) by (apply Hs; auto). congruence.
+Qed.
+
+(* ---- dictionaries ---- *)
+Lemma tkey_eqb_eq (a b : tkey) : tkey_eqb a b = true <-> a = b.
+Proof.
+  destruct a as [[a1 a2] a3], b as [[b1 b2] b3]. unfold tkey_eqb.
+  rewrite !andb_true_iff, !Z.eqb_eq. split.
+  - intros [[-> ->] ->]. reflexivity.
+  - intros H. inversion H. auto.
+Qed.
+Lemma tkey_eqb_refl t : tkey_eqb t t = true.
+Proof. apply tkey_eqb_eq. reflexivity. Qed.
+Lemma find_seed_set (c : cacheT) t e t' :
+  find_seed (seeds (set_seed c t e)) t' = if tkey_eqb t t' then Some e else find_seed (seeds c) t'.
+Proof. reflexivity. Qed.
+Lemma find_seed_set_same (c : cacheT) t e : find_seed (seeds (set_seed c t e)) t = Some e.
+Proof. rewrite find_seed_set, tkey_eqb_refl. reflexivity. Qed.
+
+(* ---- 1. the invariant ---- *)
+(* loading `d` for `rk` is loading the true root key (as far as key derivation can tell) *)
+Definition agrees (rk : Z) (d : RK) : Prop := forall sd l0, l1seed d rk sd l0 = top rk sd l0.
+
+Definition Inv (c : cacheT) : Prop :=
+  (forall rk d, find_root (roots c) rk = Some d -> agrees rk d) /\
+  (forall rk sd l0 e, find_seed (seeds c) (rk, sd, l0) = Some e -> c_rk e = rk /\ c_l0 e = l0 /\ conf sd e).
+
+Lemma agrees_truth rk : agrees rk (truth rk).
+Proof. intros sd l0. reflexivity. Qed.
+
+Lemma Inv_empty : Inv empty_cache.
+Proof. split; cbn; intros; discriminate. Qed.
+
+Lemma Inv_load c rk d : Inv c -> agrees rk d -> Inv (load_key c rk d).
+Proof.
+  intros [Hr Hs] Hd. split; [|exact Hs].
+  intros rk' d'. cbn [load_key roots find_root]. destruct (rk =? rk') eqn:E.
+  - intros H. assert (d = d') by congruence. assert (rk = rk') by lia. subst. exact Hd.
+  - apply Hr.
+Qed.
+
+Lemma Inv_set_seed c rk sd l0 e : Inv c -> c_rk e = rk -> c_l0 e = l0 -> conf sd e -> Inv (set_seed c (rk, sd, l0) e).
+Proof.
+  intros [Hr Hs] H1 H2 H3. split; [exact Hr|].
+  intros rk' sd' l0' e'. rewrite find_seed_set. destruct (tkey_eqb (rk, sd, l0) (rk', sd', l0')) eqn:E.
+  - apply tkey_eqb_eq in E. inversion E; subst rk' sd' l0'. intros H. assert (e = e') by congruence. subst e'. auto.
+  - apply Hs.
+Qed.
+
+Lemma conf_root_gke d rk sd l0 : agrees rk d -> conf sd (root_gke d rk sd l0).
+Proof.
+  intros H. split; [reflexivity|]. unfold root_gke, cenv_env. cbn [c_rk c_l0 c_l1 c_l2 c_k1 c_k2].
+  rewrite H. exact (root_env_conforming (kdf rk l0) (top rk sd l0) nokey).
+Qed.
+
+Lemma conf_range sd e : conf sd e -> 0 <= c_l1 e <= 31 /\ 0 <= c_l2 e <= 31.
+Proof. intros [_ (H1 & H2 & _)]. exact (conj H1 H2). Qed.
+
+Lemma get_key_sound c sd rk l0 l1 l2 e c1 : Inv c -> get_key' c sd rk l0 l1 l2 = (Some e, c1) ->
+  Inv c1 /\ find_seed (seeds c1) (rk, sd, l0) = Some e /\ c_rk e = rk /\ c_l0 e = l0 /\ conf sd e /\
+  (l1 <= 31 -> l2 <= 31 -> covers_at e l1 l2).
+Proof.
+  intros HI G. destruct (get_key_cases c sd rk l0 l1 l2) as [(x & Hx & Hcov & G')|(_ & [(d & Hd & G')|(_ & G')])];
+    rewrite G' in G; [| |discriminate]; assert (e' := G); apply (f_equal fst) in e'; apply (f_equal snd) in G; cbn [fst snd] in *.
+  - assert (x = e) by congruence. subst x c1. destruct (proj2 HI _ _ _ _ Hx) as (A & B & C). auto 10.
+  - assert (root_gke d rk sd l0 = e) by congruence. subst e c1. clear e'.
+    assert (conf sd (root_gke d rk sd l0)) by (apply conf_root_gke; exact (proj1 HI _ _ Hd)).
+    split; [apply Inv_set_seed; auto|]. split; [apply find_seed_set_same|].
+    repeat (split; [solve [auto]|]). intros. unfold covers_at, root_gke; cbn [c_l1 c_l2]. lia.
+Qed.
+
+Lemma get_key_none c sd rk l0 l1 l2 c1 : get_key' c sd rk l0 l1 l2 = (None, c1) ->
+  c1 = c /\ find_root (roots c) rk = None /\ (forall e, find_seed (seeds c) (rk, sd, l0) = Some e -> ~ covers_at e l1 l2).
+Proof.
+  intros G. destruct (get_key_cases c sd rk l0 l1 l2) as [(x & Hx & Hcov & G')|(Hn & [(d & Hd & G')|(Hd & G')])];
+    rewrite G' in G; try discriminate. split; [congruence|]. auto.
+Qed.
+
+Lemma Inv_get_key c sd rk l0 l1 l2 : Inv c -> Inv (snd (get_key' c sd rk l0 l1 l2)).
+Proof.
+  intros HI. destruct (get_key' c sd rk l0 l1 l2) as [[e|] c1] eqn:G; cbn [snd].
+  - exact (proj1 (get_key_sound _ _ _ _ _ _ _ _ HI G)).
+  - apply get_key_none in G. destruct G as [-> _]. exact HI.
+Qed.
+
+Lemma Inv_store_key c sd e : Inv c -> conf sd e -> Inv (store_key c sd e).
+Proof.
+  intros HI He. destruct (store_key_cases c sd e) as [[-> _]|[-> _]]; [|exact HI].
+  apply Inv_set_seed; auto.
+Qed.
+
+(* the entry already there is at or after e: _store_key keeps it *)
+Lemma store_key_noop c sd e x : find_seed (seeds c) (c_rk e, sd, c_l0 e) = Some x -> pos_le e x -> store_key c sd e = c.
+Proof.
+  intros Hx Hle. destruct (store_key_cases c sd e) as [[_ H]|[-> _]]; [|reflexivity].
+  specialize (H _ Hx). unfold pos_lt, pos_le in *. lia.
+Qed.
+
+(* after _store_key the triple holds an entry at or after e *)
+Lemma store_key_entry c sd e :
+  exists x, find_seed (seeds (store_key c sd e)) (c_rk e, sd, c_l0 e) = Some x /\ pos_le e x.
+Proof.
+  destruct (store_key_cases c sd e) as [[-> _]|[-> (x & Hx & Hle)]].
+  - exists e. split; [apply find_seed_set_same|]. unfold pos_le. lia.
+  - exists x. auto.
+Qed.
+
+(* ---- key derivation from invariant-respecting envelopes (C02) ---- *)
+Lemma derive_conf sd e l1 l2 : conf sd e -> 0 <= l1 <= 31 -> 0 <= l2 <= 31 -> covers_at e l1 l2 ->
+  derive kdf e l1 l2 = Ok (key_at (c_rk e) sd (c_l0 e) l1 l2).
+Proof.
+  intros [_ Hc] H1 H2 Hcov. unfold derive, key_at.
+  apply (chain (kdf (c_rk e) (c_l0 e)) (top (c_rk e) sd (c_l0 e)) L2FUEL (cenv_env e) l1 l2 Hc H1 H2 Hcov).
+  unfold L2FUEL. lia.
+Qed.
+
+Lemma derive_ok_covers e l1 l2 k : derive kdf e l1 l2 = Ok k -> 0 <= l1 <= 31 /\ 0 <= l2 <= 31 /\ covers_at e l1 l2.
+Proof.
+  intros H. unfold covers_at.
+  assert (D : (0 <= l1 <= 31 /\ 0 <= l2 <= 31 /\ (c_l1 e > l1 \/ c_l1 e = l1 /\ c_l2 e >= l2)) \/
+              ~ (0 <= l1 <= 31 /\ 0 <= l2 <= 31 /\ (c_l1 e > l1 \/ c_l1 e = l1 /\ c_l2 e >= l2))) by lia.
+  destruct D as [D|D]; [exact D|].
+  unfold derive in H. rewrite (noncover (kdf (c_rk e) (c_l0 e)) L2FUEL l1 l2 (c_l1 e) (c_l2 e) (c_k1 e) (c_k2 e) D) in H.
+  discriminate.
+Qed.
+
+(* ---- the tails of the calls ---- *)
+Lemma Inv_unprotect_finish c sd l0 l1 l2 e n : Inv c -> (c_pub e = false -> conf sd e) ->
+  Inv (snd (unprotect_finish kdf c sd l0 l1 l2 e n)).
+Proof.
+  intros HI He. unfold unprotect_finish. cbv zeta. cbn [snd].
+  destruct (c_pub e); [exact HI|]. apply Inv_store_key; auto.
+Qed.
+Lemma Inv_protect_finish c sd e n : Inv c -> (c_pub e = false -> conf sd e) ->
+  Inv (snd (protect_finish c sd e n)).
+Proof.
+  intros HI He. unfold protect_finish. cbv zeta. cbn [snd].
+  destruct (c_pub e); [exact HI|]. apply Inv_store_key; auto.
+Qed.
+
+(* the outcome of the tail of unprotect on an invariant-respecting covering envelope *)
+Lemma unprotect_finish_key c sd rk l0 l1 l2 e n : conf sd e -> c_rk e = rk -> c_l0 e = l0 ->
+  0 <= l1 <= 31 -> 0 <= l2 <= 31 -> covers_at e l1 l2 ->
+  fst (unprotect_finish kdf c sd l0 l1 l2 e n) =
+  {| o_key := Ok (key_at rk sd l0 l1 l2); o_pos := (l0, l1, l2); o_pub := false; o_rpcs := n |}.
+Proof.
+  intros Hc Hrk Hl0 H1 H2 Hcov. unfold unprotect_finish. cbv zeta. cbn [fst].
+  rewrite (derive_conf sd e l1 l2 Hc H1 H2 Hcov). destruct Hc as [Hp _]. rewrite Hp, Hrk, Hl0, Z.eqb_refl. reflexivity.
+Qed.
+
+(* _get_protection_gke_from_cache *)
+Definition prot_env (rk l0 l1 l2 : Z) (pub : bool) (k : K) : cenvK :=
+  {| c_rk := rk; c_l0 := l0; c_l1 := l1; c_l2 := l2; c_pub := pub; c_k1 := nokey; c_k2 := k |}.
+
+Lemma protection_gke_cases c sd rko l0 l1 l2 :
+  (rko = None /\ protection_gke kdf l1seed nokey c sd rko l0 l1 l2 = (None, c)) \/
+  (exists rk, rko = Some rk /\
+     ((exists c1, get_key' c sd rk l0 l1 l2 = (None, c1) /\ protection_gke kdf l1seed nokey c sd rko l0 l1 l2 = (None, c1)) \/
+      (exists e c1, get_key' c sd rk l0 l1 l2 = (Some e, c1) /\
+         ((exists er, derive kdf e l1 l2 = Raise er /\ protection_gke kdf l1seed nokey c sd rko l0 l1 l2 = (Some (Raise er), c1)) \/
+          (exists k, derive kdf e l1 l2 = Ok k /\
+                     protection_gke kdf l1seed nokey c sd rko l0 l1 l2 = (Some (Ok (prot_env rk l0 l1 l2 (c_pub e) k)), c1)))))).
+Proof.
+  destruct rko as [rk|]; [right; exists rk; split; [reflexivity|]|left; split; reflexivity].
+  unfold protection_gke. destruct (get_key' c sd rk l0 l1 l2) as [[e|] c1] eqn:G.
+  - right. exists e, c1. split; [reflexivity|].
+    destruct (derive kdf e l1 l2) as [k|er] eqn:D; [right; exists k|left; exists er]; split; reflexivity.
+  - left. exists c1. split; reflexivity.
+Qed.
+
+(* The envelope _get_protection_gke_from_cache builds carries no L1 key: it is NOT a conforming
+   envelope in general (see prot_env_not_conforming below).  It never reaches the cache: the entry
+   _get_key has just returned / written for the triple is at or after the requested position. *)
+Lemma prot_env_not_stored c sd rk l0 l1 l2 e c1 k : Inv c ->
+  get_key' c sd rk l0 l1 l2 = (Some e, c1) -> derive kdf e l1 l2 = Ok k ->
+  store_key c1 sd (prot_env rk l0 l1 l2 (c_pub e) k) = c1.
+Proof.
+  intros HI G D. destruct (get_key_sound _ _ _ _ _ _ _ _ HI G) as (_ & Hf & _).
+  apply derive_ok_covers in D. destruct D as (_ & _ & Hcov).
+  apply (store_key_noop c1 sd _ e); [exact Hf|]. unfold pos_le, covers_at, prot_env in *. cbn [c_l1 c_l2]. lia.
+Qed.
+
+(* ---- shapes of the steps ---- *)
+Lemma step_unprotect_hit w sd rk l0 l1 l2 e c1 : get_key' (w_cache w) sd rk l0 l1 l2 = (Some e, c1) ->
+  step' w (Start (CUnprotect sd rk l0 l1 l2)) =
+  {| w_cache := snd (unprotect_finish kdf c1 sd l0 l1 l2 e 0); w_pending := w_pending w;
+     w_out := w_out w ++ [fst (unprotect_finish kdf c1 sd l0 l1 l2 e 0)] |}.
+Proof. intros G. unfold step. rewrite G. reflexivity. Qed.
+Lemma step_unprotect_miss w sd rk l0 l1 l2 c1 : get_key' (w_cache w) sd rk l0 l1 l2 = (None, c1) ->
+  step' w (Start (CUnprotect sd rk l0 l1 l2)) =
+  {| w_cache := c1; w_pending := w_pending w ++ [PUnprotect sd l0 l1 l2 (dc sd (Some rk) l0 l1 l2)]; w_out := w_out w |}.
+Proof. intros G. unfold step. rewrite G. reflexivity. Qed.
+Lemma step_protect_raise w sd rko l0 l1 l2 er c1 :
+  protection_gke kdf l1seed nokey (w_cache w) sd rko l0 l1 l2 = (Some (Raise er), c1) ->
+  step' w (Start (CProtect sd rko l0 l1 l2)) =
+  {| w_cache := c1; w_pending := w_pending w;
+     w_out := w_out w ++ [{| o_key := Raise er; o_pos := (l0, l1, l2); o_pub := false; o_rpcs := 0 |}] |}.
+Proof. intros G. unfold step. rewrite G. reflexivity. Qed.
+Lemma step_protect_hit w sd rko l0 l1 l2 e c1 :
+  protection_gke kdf l1seed nokey (w_cache w) sd rko l0 l1 l2 = (Some (Ok e), c1) ->
+  step' w (Start (CProtect sd rko l0 l1 l2)) =
+  {| w_cache := snd (protect_finish c1 sd e 0); w_pending := w_pending w;
+     w_out := w_out w ++ [fst (protect_finish c1 sd e 0)] |}.
+Proof. intros G. unfold step. rewrite G. reflexivity. Qed.
+Lemma step_protect_miss w sd rko l0 l1 l2 c1 :
+  protection_gke kdf l1seed nokey (w_cache w) sd rko l0 l1 l2 = (None, c1) ->
+  step' w (Start (CProtect sd rko l0 l1 l2)) =
+  {| w_cache := c1; w_pending := w_pending w ++ [PProtect sd (dc sd rko (-1) (-1) (-1))]; w_out := w_out w |}.
+Proof. intros G. unfold step. rewrite G. reflexivity. Qed.
+Lemma step_finish_none w i : nth_error (w_pending w) i = None -> step' w (Finish i) = w.
+Proof. intros G. unfold step. rewrite G. reflexivity. Qed.
+Lemma step_finish_unprotect w i sd l0 l1 l2 e : nth_error (w_pending w) i = Some (PUnprotect sd l0 l1 l2 e) ->
+  step' w (Finish i) =
+  {| w_cache := snd (unprotect_finish kdf (w_cache w) sd l0 l1 l2 e 1); w_pending := remove_nth i (w_pending w);
+     w_out := w_out w ++ [fst (unprotect_finish kdf (w_cache w) sd l0 l1 l2 e 1)] |}.
+Proof. intros G. unfold step. rewrite G. reflexivity. Qed.
+Lemma step_finish_protect w i sd e : nth_error (w_pending w) i = Some (PProtect sd e) ->
+  step' w (Finish i) =
+  {| w_cache := snd (protect_finish (w_cache w) sd e 1); w_pending := remove_nth i (w_pending w);
+     w_out := w_out w ++ [fst (protect_finish (w_cache w) sd e 1)] |}.
+Proof. intros G. unfold step. rewrite G. reflexivity. Qed.
+
+Lemma Forall_remove_nth {A} (P : A -> Prop) i (l : list A) : Forall P l -> Forall P (remove_nth i l).
+Proof.
+  revert i. induction l as [|a l IH]; intros [|i] H; cbn [remove_nth]; auto.
+  - inversion H; auto.
+  - inversion H; subst. constructor; auto.
+Qed.
+Lemma Forall_nth_error {A} (P : A -> Prop) i (l : list A) a : Forall P l -> nth_error l i = Some a -> P a.
+Proof. intros H G. apply nth_error_In in G. rewrite Forall_forall in H. auto. Qed.
+Lemma Forall_snoc {A} (P : A -> Prop) (l : list A) a : Forall P l -> P a -> Forall P (l ++ [a]).
+Proof. intros. apply Forall_app. auto. Qed.
+
+(* ---- 3. the cache only grows: per triple the position never decreases, loaded roots stay ---- *)
+Definition grows c c' : Prop :=
+  (forall t x, find_seed (seeds c) t = Some x -> exists y, find_seed (seeds c') t = Some y /\ pos_le x y) /\
+  (forall rk, find_root (roots c) rk <> None -> find_root (roots c') rk <> None).
+
+Lemma pos_le_refl x : pos_le x x.
+Proof. unfold pos_le. lia. Qed.
+Lemma grows_refl c : grows c c.
+Proof. split; [|auto]. intros t x Hx. exists x. split; [exact Hx|apply pos_le_refl]. Qed.
+Lemma grows_trans c1 c2 c3 : grows c1 c2 -> grows c2 c3 -> grows c1 c3.
+Proof.
+  intros [A1 B1] [A2 B2]. split; [|auto]. intros t x Hx.
+  destruct (A1 _ _ Hx) as (y & Hy & L1). destruct (A2 _ _ Hy) as (z & Hz & L2).
+  exists z. split; [exact Hz|]. unfold pos_le in *. lia.
+Qed.
+Lemma grows_set_seed c t e : (forall x, find_seed (seeds c) t = Some x -> pos_le x e) -> grows c (set_seed c t e).
+Proof.
+  intros H. split; [|auto]. intros t' x Hx. rewrite find_seed_set. destruct (tkey_eqb t t') eqn:E.
+  - apply tkey_eqb_eq in E. subst t'. exists e. auto.
+  - exists x. split; [exact Hx|apply pos_le_refl].
+Qed.
+Lemma grows_load c rk d : grows c (load_key c rk d).
+Proof.
+  split.
+  - intros t x Hx. exists x. split; [exact Hx|apply pos_le_refl].
+  - intros rk' H. cbn [load_key roots find_root]. destruct (rk =? rk'); [discriminate|exact H].
+Qed.
+Lemma grows_store c sd e : grows c (store_key c sd e).
+Proof.
+  destruct (store_key_cases c sd e) as [[-> H]|[-> _]]; [|apply grows_refl].
+  apply grows_set_seed. intros x Hx. specialize (H _ Hx). unfold pos_lt, pos_le in *. lia.
+Qed.
+Lemma grows_get_key c sd rk l0 l1 l2 : Inv c -> grows c (snd (get_key' c sd rk l0 l1 l2)).
+Proof.
+  intros HI. destruct (get_key_cases c sd rk l0 l1 l2) as [(x & Hx & Hcov & G)|(_ & [(d & Hd & G)|(_ & G)])];
+    rewrite G; cbn [snd]; try apply grows_refl.
+  apply grows_set_seed. intros x Hx. destruct (proj2 HI _ _ _ _ Hx) as (_ & _ & Hc). apply conf_range in Hc.
+  unfold pos_le, root_gke. cbn [c_l1 c_l2]. lia.
+Qed.
+
+(* the atomic moves of the cache *)
+Definition moves c c' : Prop :=
+  c' = c \/ (exists rk d, agrees rk d /\ c' = load_key c rk d) \/
+  (exists sd rk l0 l1 l2, c' = snd (get_key' c sd rk l0 l1 l2)) \/
+  (exists sd e, conf sd e /\ c' = store_key c sd e).
+Lemma Inv_moves c c' : Inv c -> moves c c' -> Inv c'.
+Proof.
+  intros HI [->|[(rk & d & Hd & ->)|[(sd & rk & l0 & l1 & l2 & ->)|(sd & e & He & ->)]]];
+    auto using Inv_load, Inv_get_key, Inv_store_key.
+Qed.
+Lemma grows_moves c c' : Inv c -> moves c c' -> grows c c'.
+Proof.
+  intros HI [->|[(rk & d & Hd & ->)|[(sd & rk & l0 & l1 & l2 & ->)|(sd & e & He & ->)]]];
+    auto using grows_refl, grows_load, grows_get_key, grows_store.
+Qed.
+Lemma moves_get c sd rk l0 l1 l2 r c1 : get_key' c sd rk l0 l1 l2 = (r, c1) -> moves c c1.
+Proof. intros G. right; right; left. exists sd, rk, l0, l1, l2. rewrite G. reflexivity. Qed.
+Lemma moves_unprotect_finish c sd l0 l1 l2 e n : (c_pub e = false -> conf sd e) ->
+  moves c (snd (unprotect_finish kdf c sd l0 l1 l2 e n)).
+Proof.
+  intros He. unfold unprotect_finish. cbv zeta. cbn [snd].
+  destruct (c_pub e); [left; reflexivity|]. right; right; right. exists sd, e. auto.
+Qed.
+Lemma moves_protect_finish c sd e n : (c_pub e = false -> conf sd e) -> moves c (snd (protect_finish c sd e n)).
+Proof.
+  intros He. unfold protect_finish. cbv zeta. cbn [snd].
+  destruct (c_pub e); [left; reflexivity|]. right; right; right. exists sd, e. auto.
+Qed.
+
+(* ---- the world: cache + pending RPCs + outcomes so far ---- *)
+Definition pend_conf (p : pending (K := K)) : Prop :=
+  match p with PUnprotect sd _ _ _ e | PProtect sd e => c_pub e = false -> adm sd e end.
+Definition pend_pos (p : pending (K := K)) : Prop :=
+  match p with
+  | PUnprotect sd l0 l1 l2 e => c_pub e = false -> c_l0 e = l0 /\ c_l1 e = l1 /\ c_l2 e = l2
+  | PProtect _ _ => True
+  end.
+(* loads are of true root keys *)
+Definition ev_true ev : Prop := match ev with Start (CLoad rk d) => agrees rk d | _ => True end.
+(* ... and requested positions are positions *)
+Definition ev_adm ev : Prop :=
+  match ev with
+  | Start (CLoad rk d) => agrees rk d
+  | Start (CUnprotect sd rk l0 l1 l2) => 0 <= l0 /\ 0 <= l1 <= 31 /\ 0 <= l2 <= 31
+  | Start (CProtect sd rko l0 l1 l2) => 0 <= l1 <= 31 /\ 0 <= l2 <= 31
+  | Finish _ => True
+  end.
+Lemma ev_adm_true ev : ev_adm ev -> ev_true ev.
+Proof. destruct ev as [[| |]|]; cbn; auto. Qed.
+
+(* 2. the key the outcome carries is the chain key of the position it names *)
+Definition good_outcome (o : outcome (K := K)) : Prop :=
+  o_pub o = false ->
+  exists rk sd l0 l1 l2, o_pos o = (l0, l1, l2) /\ 0 <= l1 <= 31 /\ 0 <= l2 <= 31 /\ o_key o = Ok (key_at rk sd l0 l1 l2).
+
+Hypothesis dc_explicit : dc_explicit_ok.
+Hypothesis dc_conforming : dc_conforming_ok.
+
+Lemma dc_adm sd rko l0 l1 l2 : c_pub (dc sd rko l0 l1 l2) = false -> adm sd (dc sd rko l0 l1 l2).
+Proof. intros H. destruct (dc_conforming sd rko l0 l1 l2 H) as (_ & _ & A & B). split; [split|]; assumption. Qed.
+
+Lemma step_moves w ev : Inv (w_cache w) -> Forall pend_conf (w_pending w) -> ev_true ev ->
+  (exists cm, moves (w_cache w) cm /\ moves cm (w_cache (step' w ev))) /\ Forall pend_conf (w_pending (step' w ev)).
+Proof.
+  intros HI HP Hev. destruct ev as [[rk d|sd rk l0 l1 l2|sd rko l0 l1 l2]|i].
+  - split; [|exact HP]. exists (w_cache w). split; [left; reflexivity|].
+    right; left. exists rk, d. split; [exact Hev|reflexivity].
+  - destruct (get_key' (w_cache w) sd rk l0 l1 l2) as [[e|] c1] eqn:G.
+    + rewrite (step_unprotect_hit _ _ _ _ _ _ _ _ G). cbn [w_cache w_pending]. split; [|exact HP].
+      exists c1. split; [exact (moves_get _ _ _ _ _ _ _ _ G)|].
+      destruct (get_key_sound _ _ _ _ _ _ _ _ HI G) as (_ & _ & _ & _ & Hc & _).
+      apply moves_unprotect_finish. auto.
+    + rewrite (step_unprotect_miss _ _ _ _ _ _ _ G). cbn [w_cache w_pending]. split.
+      * exists c1. split; [exact (moves_get _ _ _ _ _ _ _ _ G)|left; reflexivity].
+      * apply Forall_snoc; [exact HP|]. cbn [pend_conf]. apply dc_adm.
+  - destruct (protection_gke_cases (w_cache w) sd rko l0 l1 l2)
+      as [[-> P]|(rk & -> & [(c1 & G & P)|(e & c1 & G & [(er & D & P)|(k & D & P)])])].
+    + rewrite (step_protect_miss _ _ _ _ _ _ _ P). cbn [w_cache w_pending]. split.
+      * exists (w_cache w). split; left; reflexivity.
+      * apply Forall_snoc; [exact HP|]. cbn [pend_conf]. apply dc_adm.
+    + rewrite (step_protect_miss _ _ _ _ _ _ _ P). cbn [w_cache w_pending]. split.
+      * exists c1. split; [exact (moves_get _ _ _ _ _ _ _ _ G)|left; reflexivity].
+      * apply Forall_snoc; [exact HP|]. cbn [pend_conf]. apply dc_adm.
+    + rewrite (step_protect_raise _ _ _ _ _ _ _ _ P). cbn [w_cache w_pending]. split; [|exact HP].
+      exists c1. split; [exact (moves_get _ _ _ _ _ _ _ _ G)|left; reflexivity].
+    + rewrite (step_protect_hit _ _ _ _ _ _ _ _ P). cbn [w_cache w_pending]. split; [|exact HP].
+      exists c1. split; [exact (moves_get _ _ _ _ _ _ _ _ G)|]. left.
+      unfold protect_finish. cbv zeta. cbn [snd]. cbn [prot_env c_pub].
+      destruct (c_pub e) eqn:Ep; [reflexivity|]. rewrite <- Ep. exact (prot_env_not_stored _ _ _ _ _ _ _ _ _ HI G D).
+  - destruct (nth_error (w_pending w) i) as [[sd l0 l1 l2 e|sd e]|] eqn:G.
+    + rewrite (step_finish_unprotect _ _ _ _ _ _ _ G). cbn [w_cache w_pending].
+      split; [|apply Forall_remove_nth; exact HP].
+      exists (w_cache w). split; [left; reflexivity|]. apply moves_unprotect_finish.
+      intros Hp. exact (proj1 (Forall_nth_error _ _ _ _ HP G Hp)).
+    + rewrite (step_finish_protect _ _ _ _ G). cbn [w_cache w_pending].
+      split; [|apply Forall_remove_nth; exact HP].
+      exists (w_cache w). split; [left; reflexivity|]. apply moves_protect_finish.
+      intros Hp. exact (proj1 (Forall_nth_error _ _ _ _ HP G Hp)).
+    + rewrite (step_finish_none _ _ G). split; [|exact HP]. exists (w_cache w). split; left; reflexivity.
+Qed.
+
+(* Inv (and the sanity of what is in flight) is preserved by EVERY event; only loads are constrained *)
+Definition WInv w : Prop := Inv (w_cache w) /\ Forall pend_conf (w_pending w).
+Lemma step_WInv w ev : WInv w -> ev_true ev -> WInv (step' w ev).
+Proof.
+  intros [HI HP] Hev. destruct (step_moves w ev HI HP Hev) as [(cm & M1 & M2) HP']. split; [|exact HP'].
+  eauto using Inv_moves.
+Qed.
+Lemma step_grows w ev : WInv w -> ev_true ev -> grows (w_cache w) (w_cache (step' w ev)).
+Proof.
+  intros [HI HP] Hev. destruct (step_moves w ev HI HP Hev) as [(cm & M1 & M2) _].
+  eapply grows_trans; [exact (grows_moves _ _ HI M1)|]. apply grows_moves; [|exact M2]. eauto using Inv_moves.
+Qed.
+Lemma WInv_init : WInv init_world.
+Proof. split; [exact Inv_empty|constructor]. Qed.
+Lemma fold_WInv evs w : WInv w -> Forall ev_true evs -> WInv (fold_left step' evs w).
+Proof.
+  revert w. induction evs as [|ev evs IH]; intros w HW HA; [exact HW|].
+  inversion HA; subst. cbn [fold_left]. apply IH; [apply step_WInv|]; assumption.
+Qed.
+Lemma fold_grows evs w : WInv w -> Forall ev_true evs -> grows (w_cache w) (w_cache (fold_left step' evs w)).
+Proof.
+  revert w. induction evs as [|ev evs IH]; intros w HW HA; [apply grows_refl|].
+  inversion HA; subst. cbn [fold_left]. eapply grows_trans; [apply step_grows; eassumption|].
+  apply IH; [apply step_WInv|]; assumption.
+Qed.
+
+(* 1. the invariant holds in every reachable world, whatever the interleaving *)
+Theorem Inv_reachable evs : Forall ev_true evs -> Inv (w_cache (run' evs)).
+Proof. intros H. exact (proj1 (fold_WInv evs init_world WInv_init H)). Qed.
+
+(* 3. along any history the position cached for a triple never decreases (and loaded roots stay) *)
+Theorem monotone evs1 evs2 : Forall ev_true (evs1 ++ evs2) ->
+  grows (w_cache (run' evs1)) (w_cache (run' (evs1 ++ evs2))).
+Proof.
+  intros H. apply Forall_app in H. destruct H as [H1 H2]. unfold run_events. rewrite fold_left_app.
+  apply fold_grows; [apply fold_WInv; [exact WInv_init|exact H1]|exact H2].
+Qed.
+
+(* ---- 2. transparency ---- *)
+Lemma good_unprotect_finish c sd l0 l1 l2 e n :
+  (c_pub e = false -> adm sd e /\ c_l0 e = l0 /\ c_l1 e = l1 /\ c_l2 e = l2) ->
+  good_outcome (fst (unprotect_finish kdf c sd l0 l1 l2 e n)).
+Proof.
+  intros H Hp. assert (Hp' : c_pub e = false) by exact Hp. destruct (H Hp') as ([Hc _] & E0 & E1 & E2).
+  pose proof (conf_range _ _ Hc) as [R1 R2]. rewrite E1 in R1. rewrite E2 in R2.
+  rewrite (unprotect_finish_key c sd (c_rk e) l0 l1 l2 e n Hc eq_refl E0 R1 R2) by (unfold covers_at; lia).
+  exists (c_rk e), sd, l0, l1, l2. cbn [o_pos o_key]. auto.
+Qed.
+Lemma good_protect_finish c sd e n : (c_pub e = false -> adm sd e) -> good_outcome (fst (protect_finish c sd e n)).
+Proof.
+  intros H Hp. assert (Hp' : c_pub e = false) by exact Hp. destruct (H Hp') as [Hc Hk].
+  pose proof (conf_range _ _ Hc) as [R1 R2].
+  exists (c_rk e), sd, (c_l0 e), (c_l1 e), (c_l2 e). unfold protect_finish. cbv zeta. cbn [fst o_pos o_key].
+  rewrite Hk. auto.
+Qed.
+
+(* a request served from the cache (cached envelope or loaded root key) yields exactly the chain key *)
+Lemma unprotect_hit_outcome c sd rk l0 l1 l2 e c1 n : Inv c -> get_key' c sd rk l0 l1 l2 = (Some e, c1) ->
+  0 <= l1 <= 31 -> 0 <= l2 <= 31 ->
+  fst (unprotect_finish kdf c1 sd l0 l1 l2 e n) =
+  {| o_key := Ok (key_at rk sd l0 l1 l2); o_pos := (l0, l1, l2); o_pub := false; o_rpcs := n |}.
+Proof.
+  intros HI G R1 R2. destruct (get_key_sound _ _ _ _ _ _ _ _ HI G) as (_ & _ & Erk & El0 & Hc & Hcov).
+  apply unprotect_finish_key; auto. apply Hcov; lia.
+Qed.
+Lemma protect_hit_outcome c sd rk l0 l1 l2 e c1 k n : Inv c -> get_key' c sd rk l0 l1 l2 = (Some e, c1) ->
+  derive kdf e l1 l2 = Ok k ->
+  fst (protect_finish c1 sd (prot_env rk l0 l1 l2 (c_pub e) k) n) =
+  {| o_key := Ok (key_at rk sd l0 l1 l2); o_pos := (l0, l1, l2); o_pub := false; o_rpcs := n |}.
+Proof.
+  intros HI G D. destruct (get_key_sound _ _ _ _ _ _ _ _ HI G) as (_ & _ & Erk & El0 & Hc & _).
+  destruct (derive_ok_covers _ _ _ _ D) as (R1 & R2 & Hcov).
+  rewrite (derive_conf sd e l1 l2 Hc R1 R2 Hcov), Erk, El0 in D. apply Ok_inj in D. subst k.
+  destruct Hc as [Hp _]. rewrite Hp. reflexivity.
+Qed.
+(* an RPC reply for an explicit position: the chain key of that position of the requested root key *)
+Lemma unprotect_rpc_outcome c sd rk l0 l1 l2 n : 0 <= l0 -> 0 <= l1 <= 31 -> 0 <= l2 <= 31 ->
+  c_pub (dc sd (Some rk) l0 l1 l2) = false ->
+  fst (unprotect_finish kdf c sd l0 l1 l2 (dc sd (Some rk) l0 l1 l2) n) =
+  {| o_key := Ok (key_at rk sd l0 l1 l2); o_pos := (l0, l1, l2); o_pub := false; o_rpcs := n |}.
+Proof.
+  intros R0 R1 R2 Hp. destruct (dc_explicit sd rk l0 l1 l2 R0 R1 R2) as (Erk & El0 & E1 & E2).
+  destruct (dc_adm _ _ _ _ _ Hp) as [Hc _].
+  apply unprotect_finish_key; auto. unfold covers_at. lia.
+Qed.
+
+Lemma step_out w ev : Inv (w_cache w) -> Forall pend_conf (w_pending w) -> Forall pend_pos (w_pending w) -> ev_adm ev ->
+  Forall pend_pos (w_pending (step' w ev)) /\
+  exists new, w_out (step' w ev) = w_out w ++ new /\ Forall good_outcome new.
+Proof.
+  intros HI HC HP Hev. destruct ev as [[rk d|sd rk l0 l1 l2|sd rko l0 l1 l2]|i].
+  - split; [exact HP|]. exists []. split; [symmetry; apply app_nil_r|constructor].
+  - destruct Hev as (R0 & R1 & R2). destruct (get_key' (w_cache w) sd rk l0 l1 l2) as [[e|] c1] eqn:G.
+    + rewrite (step_unprotect_hit _ _ _ _ _ _ _ _ G). cbn [w_out w_pending]. split; [exact HP|].
+      eexists. split; [reflexivity|]. constructor; [|constructor].
+      rewrite (unprotect_hit_outcome _ _ _ _ _ _ _ _ 0 HI G R1 R2). intros _.
+      exists rk, sd, l0, l1, l2. cbn [o_pos o_key]. auto.
+    + rewrite (step_unprotect_miss _ _ _ _ _ _ _ G). cbn [w_out w_pending]. split.
+      * apply Forall_snoc; [exact HP|]. cbn [pend_pos]. intros _.
+        destruct (dc_explicit sd rk l0 l1 l2 R0 R1 R2) as (_ & El0 & E1 & E2). auto.
+      * exists []. split; [symmetry; apply app_nil_r|constructor].
+  - destruct (protection_gke_cases (w_cache w) sd rko l0 l1 l2)
+      as [[-> P]|(rk & -> & [(c1 & G & P)|(e & c1 & G & [(er & D & P)|(k & D & P)])])].
+    + rewrite (step_protect_miss _ _ _ _ _ _ _ P). cbn [w_out w_pending]. split.
+      * apply Forall_snoc; [exact HP|exact I].
+      * exists []. split; [symmetry; apply app_nil_r|constructor].
+    + rewrite (step_protect_miss _ _ _ _ _ _ _ P). cbn [w_out w_pending]. split.
+      * apply Forall_snoc; [exact HP|exact I].
+      * exists []. split; [symmetry; apply app_nil_r|constructor].
+    + (* compute_l2_key cannot raise on an invariant-respecting entry and a position *)
+      exfalso. destruct Hev as (R1 & R2).
+      destruct (get_key_sound _ _ _ _ _ _ _ _ HI G) as (_ & _ & _ & _ & Hc & Hcov).
+      rewrite (derive_conf sd e l1 l2 Hc R1 R2) in D by (apply Hcov; lia). discriminate.
+    + rewrite (step_protect_hit _ _ _ _ _ _ _ _ P). cbn [w_out w_pending]. split; [exact HP|].
+      eexists. split; [reflexivity|]. constructor; [|constructor].
+      rewrite (protect_hit_outcome _ _ _ _ _ _ _ _ _ 0 HI G D). intros _.
+      destruct (derive_ok_covers _ _ _ _ D) as (R1 & R2 & _).
+      exists rk, sd, l0, l1, l2. cbn [o_pos o_key]. auto.
+  - destruct (nth_error (w_pending w) i) as [[sd l0 l1 l2 e|sd e]|] eqn:G.
+    + rewrite (step_finish_unprotect _ _ _ _ _ _ _ G). cbn [w_out w_pending].
+      split; [apply Forall_remove_nth; exact HP|]. eexists. split; [reflexivity|]. constructor; [|constructor].
+      apply good_unprotect_finish. intros Hp. split.
+      * exact (Forall_nth_error _ _ _ _ HC G Hp).
+      * exact (Forall_nth_error _ _ _ _ HP G Hp).
+    + rewrite (step_finish_protect _ _ _ _ G). cbn [w_out w_pending].
+      split; [apply Forall_remove_nth; exact HP|]. eexists. split; [reflexivity|]. constructor; [|constructor].
+      apply good_protect_finish. exact (Forall_nth_error _ _ _ _ HC G).
+    + rewrite (step_finish_none _ _ G). split; [exact HP|]. exists []. split; [symmetry; apply app_nil_r|constructor].
+Qed.
+
+Definition WGood w : Prop := WInv w /\ Forall pend_pos (w_pending w) /\ Forall good_outcome (w_out w).
+Lemma step_WGood w ev : WGood w -> ev_adm ev -> WGood (step' w ev).
+Proof.
+  intros (HW & HP & HO) Hev. split; [apply step_WInv; [exact HW|apply ev_adm_true; exact Hev]|].
+  destruct HW as [HI HC]. destruct (step_out w ev HI HC HP Hev) as (HP' & new & -> & Hn).
+  split; [exact HP'|]. apply Forall_app. auto.
+Qed.
+Lemma fold_WGood evs w : WGood w -> Forall ev_adm evs -> WGood (fold_left step' evs w).
+Proof.
+  revert w. induction evs as [|ev evs IH]; intros w HW HA; [exact HW|].
+  inversion HA; subst. cbn [fold_left]. apply IH; [apply step_WGood|]; assumption.
+Qed.
+
+(* 2. every call completed in any reachable world used the chain key of the position it names
+   (never an error, never OutOfFuel), whatever the history and the completion order of the RPCs *)
+Theorem all_outcomes_good evs : Forall ev_adm evs -> Forall good_outcome (w_out (run' evs)).
+Proof.
+  intros H. refine (proj2 (proj2 (fold_WGood evs init_world _ H))).
+  split; [exact WInv_init|]. split; constructor.
+Qed.
+
+(* ---- 4. no repeat RPC ---- *)
+(* the cache can serve (rk, sd, l0) at (l1, l2): a cached envelope covers it, or the root key is loaded *)
+Definition served c (rk sd l0 l1 l2 : Z) : Prop :=
+  (exists e, find_seed (seeds c) (rk, sd, l0) = Some e /\ covers_at e l1 l2) \/
+  (exists d, find_root (roots c) rk = Some d).
+
+Lemma served_get c rk sd l0 l1 l2 : served c rk sd l0 l1 l2 -> exists e c1, get_key' c sd rk l0 l1 l2 = (Some e, c1).
+Proof.
+  intros Hs. destruct (get_key_cases c sd rk l0 l1 l2) as [(x & Hx & Hcov & G)|(Hn & [(d & Hd & G)|(Hd & G)])]; eauto.
+  exfalso. destruct Hs as [(e & He & Hcov)|(d & Hd')]; [exact (Hn _ He Hcov)|congruence].
+Qed.
+
+Lemma served_grows c c' rk sd l0 l1 l2 l1' l2' : served c rk sd l0 l1 l2 -> grows c c' ->
+  l1' < l1 \/ (l1' = l1 /\ l2' <= l2) -> served c' rk sd l0 l1' l2'.
+Proof.
+  intros [(e & He & Hcov)|(d & Hd)] [HG HR] Hle.
+  - left. destruct (HG _ _ He) as (y & Hy & Hxy). exists y. split; [exact Hy|]. unfold covers_at, pos_le in *. lia.
+  - right. destruct (find_root (roots c') rk) as [d'|] eqn:E; [eauto|].
+    exfalso. apply (HR rk); congruence.
+Qed.
+
+(* what makes a position served: a load, or an envelope stored for it *)
+Lemma served_load c rk d sd l0 l1 l2 : served (load_key c rk d) rk sd l0 l1 l2.
+Proof. right. exists d. cbn [load_key roots find_root]. rewrite Z.eqb_refl. reflexivity. Qed.
+Lemma served_store c sd e : served (store_key c sd e) (c_rk e) sd (c_l0 e) (c_l1 e) (c_l2 e).
+Proof.
+  left. destruct (store_key_entry c sd e) as (x & Hx & Hle). exists x. split; [exact Hx|].
+  unfold covers_at, pos_le in *. lia.
+Qed.
+
+Lemma unprotect_served_rpcs c rk sd l0 l1 l2 : served c rk sd l0 l1 l2 ->
+  o_rpcs (fst (unprotect kdf l1seed nokey dc c sd rk l0 l1 l2)) = 0.
+Proof. intros Hs. destruct (served_get _ _ _ _ _ _ Hs) as (e & c1 & G). unfold unprotect. rewrite G. reflexivity. Qed.
+Lemma protect_served_rpcs c rk sd l0 l1 l2 : served c rk sd l0 l1 l2 ->
+  o_rpcs (fst (protect kdf l1seed nokey dc c sd (Some rk) l0 l1 l2)) = 0.
+Proof.
+  intros Hs. destruct (served_get _ _ _ _ _ _ Hs) as (e & c1 & G). unfold protect, protection_gke. rewrite G.
+  destruct (derive kdf e l1 l2); reflexivity.
+Qed.
+Lemma start_unprotect_served_pending w rk sd l0 l1 l2 : served (w_cache w) rk sd l0 l1 l2 ->
+  w_pending (step' w (Start (CUnprotect sd rk l0 l1 l2))) = w_pending w.
+Proof.
+  intros Hs. destruct (served_get _ _ _ _ _ _ Hs) as (e & c1 & G).
+  rewrite (step_unprotect_hit _ _ _ _ _ _ _ _ G). reflexivity.
+Qed.
+Lemma start_protect_served_pending w rk sd l0 l1 l2 : served (w_cache w) rk sd l0 l1 l2 ->
+  w_pending (step' w (Start (CProtect sd (Some rk) l0 l1 l2))) = w_pending w.
+Proof.
+  intros Hs. destruct (served_get _ _ _ _ _ _ Hs) as (e & c1 & G).
+  destruct (protection_gke_cases (w_cache w) sd (Some rk) l0 l1 l2)
+    as [[E _]|(rk' & E & [(c1' & G' & P)|(e' & c1' & G' & [(er & D & P)|(k & D & P)])])]; try discriminate;
+    assert (rk' = rk) by congruence; subst rk'.
+  - congruence.
+  - rewrite (step_protect_raise _ _ _ _ _ _ _ _ P). reflexivity.
+  - rewrite (step_protect_hit _ _ _ _ _ _ _ _ P). reflexivity.
+Qed.
+
+(* the precise outcome of a served request: no RPC, nothing left pending, the chain key *)
+Theorem start_unprotect_served w rk sd l0 l1 l2 : Inv (w_cache w) -> served (w_cache w) rk sd l0 l1 l2 ->
+  0 <= l1 <= 31 -> 0 <= l2 <= 31 ->
+  exists c', step' w (Start (CUnprotect sd rk l0 l1 l2)) =
+    {| w_cache := c'; w_pending := w_pending w;
+       w_out := w_out w ++ [{| o_key := Ok (key_at rk sd l0 l1 l2); o_pos := (l0, l1, l2); o_pub := false; o_rpcs := 0 |}] |}.
+Proof.
+  intros HI Hs R1 R2. destruct (served_get _ _ _ _ _ _ Hs) as (e & c1 & G).
+  rewrite (step_unprotect_hit _ _ _ _ _ _ _ _ G), (unprotect_hit_outcome _ _ _ _ _ _ _ _ 0 HI G R1 R2). eauto.
+Qed.
+Theorem start_protect_served w rk sd l0 l1 l2 : Inv (w_cache w) -> served (w_cache w) rk sd l0 l1 l2 ->
+  0 <= l1 <= 31 -> 0 <= l2 <= 31 ->
+  exists c', step' w (Start (CProtect sd (Some rk) l0 l1 l2)) =
+    {| w_cache := c'; w_pending := w_pending w;
+       w_out := w_out w ++ [{| o_key := Ok (key_at rk sd l0 l1 l2); o_pos := (l0, l1, l2); o_pub := false; o_rpcs := 0 |}] |}.
+Proof.
+  intros HI Hs R1 R2. destruct (served_get _ _ _ _ _ _ Hs) as (e & c1 & G).
+  destruct (get_key_sound _ _ _ _ _ _ _ _ HI G) as (_ & _ & Erk & El0 & Hc & Hcov).
+  assert (D : derive kdf e l1 l2 = Ok (key_at rk sd l0 l1 l2))
+    by (rewrite (derive_conf sd e l1 l2 Hc R1 R2) by (apply Hcov; lia); rewrite Erk, El0; reflexivity).
+  assert (P : protection_gke kdf l1seed nokey (w_cache w) sd (Some rk) l0 l1 l2 =
+              (Some (Ok (prot_env rk l0 l1 l2 (c_pub e) (key_at rk sd l0 l1 l2))), c1))
+    by (unfold protection_gke; rewrite G, D; reflexivity).
+  rewrite (step_protect_hit _ _ _ _ _ _ _ _ P), (protect_hit_outcome _ _ _ _ _ _ _ _ _ 0 HI G D). eauto.
+Qed.
+(* the precise outcome of the completion of an unprotect RPC *)
+Theorem finish_unprotect_rpc w i rk sd l0 l1 l2 :
+  nth_error (w_pending w) i = Some (PUnprotect sd l0 l1 l2 (dc sd (Some rk) l0 l1 l2)) ->
+  0 <= l0 -> 0 <= l1 <= 31 -> 0 <= l2 <= 31 -> c_pub (dc sd (Some rk) l0 l1 l2) = false ->
+  exists c', step' w (Finish i) =
+    {| w_cache := c'; w_pending := remove_nth i (w_pending w);
+       w_out := w_out w ++ [{| o_key := Ok (key_at rk sd l0 l1 l2); o_pos := (l0, l1, l2); o_pub := false; o_rpcs := 1 |}] |}
+    /\ served c' rk sd l0 l1 l2.
+Proof.
+  intros G R0 R1 R2 Hp. rewrite (step_finish_unprotect _ _ _ _ _ _ _ G).
+  rewrite (unprotect_rpc_outcome _ _ _ _ _ _ 1 R0 R1 R2 Hp). eexists. split; [reflexivity|].
+  unfold unprotect_finish. cbv zeta. cbn [snd]. rewrite Hp.
+  destruct (dc_explicit sd rk l0 l1 l2 R0 R1 R2) as (Erk & El0 & E1 & E2).
+  pose proof (served_store (w_cache w) sd (dc sd (Some rk) l0 l1 l2)) as S.
+  rewrite Erk, El0, E1, E2 in S. exact S.
+Qed.
+
+(* 4. once a position of a triple is served, every later request at or before it on that triple
+   is answered without contacting the domain controller: whatever happens in between *)
+Theorem no_repeat_rpc evs1 evs2 rk sd l0 l1 l2 l1' l2' : Forall ev_true (evs1 ++ evs2) ->
+  served (w_cache (run' evs1)) rk sd l0 l1 l2 -> l1' < l1 \/ (l1' = l1 /\ l2' <= l2) ->
+  let w := run' (evs1 ++ evs2) in
+  served (w_cache w) rk sd l0 l1' l2' /\
+  w_pending (step' w (Start (CUnprotect sd rk l0 l1' l2'))) = w_pending w /\
+  w_pending (step' w (Start (CProtect sd (Some rk) l0 l1' l2'))) = w_pending w /\
+  o_rpcs (fst (unprotect kdf l1seed nokey dc (w_cache w) sd rk l0 l1' l2')) = 0 /\
+  o_rpcs (fst (protect kdf l1seed nokey dc (w_cache w) sd (Some rk) l0 l1' l2')) = 0.
+Proof.
+  intros HA Hs Hle w. assert (S : served (w_cache w) rk sd l0 l1' l2')
+    by exact (served_grows _ _ _ _ _ _ _ _ _ Hs (monotone evs1 evs2 HA) Hle).
+  split; [exact S|]. split; [exact (start_unprotect_served_pending _ _ _ _ _ _ S)|].
+  split; [exact (start_protect_served_pending _ _ _ _ _ _ S)|].
+  split; [exact (unprotect_served_rpcs _ _ _ _ _ _ S)|exact (protect_served_rpcs _ _ _ _ _ _ S)].
+Qed.
+
+(* ---- the synchronous API: one call = get, (RPC,) store, use, atomically ---- *)
+Theorem unprotect_transparent c sd rk l0 l1 l2 : Inv c -> 0 <= l0 -> 0 <= l1 <= 31 -> 0 <= l2 <= 31 ->
+  let o := fst (unprotect kdf l1seed nokey dc c sd rk l0 l1 l2) in
+  Inv (snd (unprotect kdf l1seed nokey dc c sd rk l0 l1 l2)) /\ o_pos o = (l0, l1, l2) /\
+  (o_pub o = false -> o_key o = Ok (key_at rk sd l0 l1 l2)) /\
+  (served c rk sd l0 l1 l2 -> o_pub o = false /\ o_rpcs o = 0).
+Proof.
+  intros HI R0 R1 R2. unfold unprotect. destruct (get_key' c sd rk l0 l1 l2) as [[e|] c1] eqn:G; cbv zeta.
+  - destruct (get_key_sound _ _ _ _ _ _ _ _ HI G) as (HI1 & _ & _ & _ & Hc & _).
+    split; [apply Inv_unprotect_finish; auto|].
+    rewrite (unprotect_hit_outcome _ _ _ _ _ _ _ _ 0 HI G R1 R2). cbn [o_pos o_pub o_key o_rpcs]. auto.
+  - destruct (get_key_none _ _ _ _ _ _ _ G) as (-> & Hr & Hn).
+    split; [apply Inv_unprotect_finish; [exact HI|]; intros Hp; exact (proj1 (dc_adm _ _ _ _ _ Hp))|].
+    split; [reflexivity|]. split.
+    + intros Hp. assert (Hp' : c_pub (dc sd (Some rk) l0 l1 l2) = false) by exact Hp.
+      rewrite (unprotect_rpc_outcome _ _ _ _ _ _ 1 R0 R1 R2 Hp'). reflexivity.
+    + intros Hs. exfalso. destruct Hs as [(e & He & Hcov)|(d & Hd)]; [exact (Hn _ He Hcov)|congruence].
+Qed.
+
+Theorem protect_transparent c sd rko l0 l1 l2 : Inv c -> 0 <= l1 <= 31 -> 0 <= l2 <= 31 ->
+  let o := fst (protect kdf l1seed nokey dc c sd rko l0 l1 l2) in
+  Inv (snd (protect kdf l1seed nokey dc c sd rko l0 l1 l2)) /\ good_outcome o /\
+  (forall rk, rko = Some rk -> served c rk sd l0 l1 l2 ->
+     o = {| o_key := Ok (key_at rk sd l0 l1 l2); o_pos := (l0, l1, l2); o_pub := false; o_rpcs := 0 |}).
+Proof.
+  intros HI R1 R2. unfold protect.
+  destruct (protection_gke_cases c sd rko l0 l1 l2)
+    as [[-> P]|(rk & -> & [(c1 & G & P)|(e & c1 & G & [(er & D & P)|(k & D & P)])])]; rewrite P; cbv zeta.
+  - split; [apply Inv_protect_finish; [exact HI|]; intros Hp; exact (proj1 (dc_adm _ _ _ _ _ Hp))|].
+    split; [apply good_protect_finish; apply dc_adm|]. intros rk E. discriminate.
+  - destruct (get_key_none _ _ _ _ _ _ _ G) as (-> & Hr & Hn).
+    split; [apply Inv_protect_finish; [exact HI|]; intros Hp; exact (proj1 (dc_adm _ _ _ _ _ Hp))|].
+    split; [apply good_protect_finish; apply dc_adm|]. intros rk' E Hs. assert (rk' = rk) by congruence. subst rk'.
+    exfalso. destruct Hs as [(e & He & Hcov)|(d & Hd)]; [exact (Hn _ He Hcov)|congruence].
+  - exfalso. destruct (get_key_sound _ _ _ _ _ _ _ _ HI G) as (_ & _ & _ & _ & Hc & Hcov).
+    rewrite (derive_conf sd e l1 l2 Hc R1 R2) in D by (apply Hcov; lia). discriminate.
+  - destruct (get_key_sound _ _ _ _ _ _ _ _ HI G) as (HI1 & _).
+    assert (E : snd (protect_finish c1 sd (prot_env rk l0 l1 l2 (c_pub e) k) 0) = c1).
+    { unfold protect_finish. cbv zeta. cbn [snd prot_env c_pub]. destruct (c_pub e) eqn:Ep; [reflexivity|].
+      rewrite <- Ep. exact (prot_env_not_stored _ _ _ _ _ _ _ _ _ HI G D). }
+    rewrite E. split; [exact HI1|]. rewrite (protect_hit_outcome _ _ _ _ _ _ _ _ _ 0 HI G D). split.
+    + intros _. exists rk, sd, l0, l1, l2. cbn [o_pos o_key]. auto.
+    + intros rk' Erk _. assert (rk' = rk) by congruence. subst rk'. reflexivity.
+Qed.
+
+(* the literal "same as with a fresh cache": whenever both runs get private key material *)
+Theorem unprotect_same_as_fresh c sd rk l0 l1 l2 : Inv c -> 0 <= l0 -> 0 <= l1 <= 31 -> 0 <= l2 <= 31 ->
+  let o := fst (unprotect kdf l1seed nokey dc c sd rk l0 l1 l2) in
+  let o0 := fst (unprotect kdf l1seed nokey dc empty_cache sd rk l0 l1 l2) in
+  o_pub o = false -> o_pub o0 = false -> o_key o = o_key o0 /\ o_pos o = o_pos o0.
+Proof.
+  intros HI R0 R1 R2 o o0 Hp Hp0.
+  destruct (unprotect_transparent c sd rk l0 l1 l2 HI R0 R1 R2) as (_ & P & Kk & _).
+  destruct (unprotect_transparent empty_cache sd rk l0 l1 l2 Inv_empty R0 R1 R2) as (_ & P0 & Kk0 & _).
+  fold o in P, Kk. fold o0 in P0, Kk0. rewrite (Kk Hp), (Kk0 Hp0), P, P0. auto.
+Qed.
+
+(* the synchronous call is the async one whose RPC completes before anything else happens *)
+Lemma sync_unprotect_as_events w sd rk l0 l1 l2 : w_pending w = [] ->
+  step' (step' w (Start (CUnprotect sd rk l0 l1 l2))) (Finish 0) =
+  {| w_cache := snd (unprotect kdf l1seed nokey dc (w_cache w) sd rk l0 l1 l2); w_pending := [];
+     w_out := w_out w ++ [fst (unprotect kdf l1seed nokey dc (w_cache w) sd rk l0 l1 l2)] |}.
+Proof.
+  intros E. unfold unprotect. destruct (get_key' (w_cache w) sd rk l0 l1 l2) as [[e|] c1] eqn:G.
+  - rewrite (step_unprotect_hit _ _ _ _ _ _ _ _ G). rewrite step_finish_none; cbn [w_pending]; rewrite E; reflexivity.
+  - rewrite (step_unprotect_miss _ _ _ _ _ _ _ G).
+    erewrite step_finish_unprotect by (cbn [w_pending]; rewrite E; reflexivity).
+    cbn [w_cache w_pending w_out]. rewrite E. reflexivity.
+Qed.
+Lemma sync_protect_as_events w sd rko l0 l1 l2 : w_pending w = [] ->
+  step' (step' w (Start (CProtect sd rko l0 l1 l2))) (Finish 0) =
+  {| w_cache := snd (protect kdf l1seed nokey dc (w_cache w) sd rko l0 l1 l2); w_pending := [];
+     w_out := w_out w ++ [fst (protect kdf l1seed nokey dc (w_cache w) sd rko l0 l1 l2)] |}.
+Proof.
+  intros E. unfold protect.
+  destruct (protection_gke kdf l1seed nokey (w_cache w) sd rko l0 l1 l2) as [[[e|er]|] c1] eqn:P.
+  - rewrite (step_protect_hit _ _ _ _ _ _ _ _ P). rewrite step_finish_none; cbn [w_pending]; rewrite E; reflexivity.
+  - rewrite (step_protect_raise _ _ _ _ _ _ _ _ P). rewrite step_finish_none; cbn [w_pending]; rewrite E; reflexivity.
+  - rewrite (step_protect_miss _ _ _ _ _ _ _ P).
+    erewrite step_finish_protect by (cbn [w_pending]; rewrite E; reflexivity).
+    cbn [w_cache w_pending w_out]. rewrite E. reflexivity.
+Qed.
+End C10.
+
+(* =====================================================================================
+   The hypotheses on the domain controller are satisfiable, for every key type and KDF:
+   the reference DC (the one the correspondence harness runs, Model/Units_cache.v udc). *)
+Section RefDC.
+Context {K RK : Type}.
+Context (kdf : Z -> Z -> K -> Z -> Z -> K) (l1seed : RK -> Z -> Z -> Z -> K) (nokey : K) (truth : Z -> RK).
+Context (dflt n0 n1 n2 : Z) (authorised : Z -> bool).   (* default root key id, the DC's clock, who may have private keys *)
+
+Definition ref_dc (sd : Z) (rko : option Z) (l0 l1 l2 : Z) : cenv (K := K) :=
+  let rk := match rko with Some r => r | None => dflt end in
+  let explicit := (0 <=? l0) && ((0 <=? l1) && (l1 <=? 31)) && ((0 <=? l2) && (l2 <=? 31)) in
+  let p0 := if explicit then l0 else n0 in
+  let p1 := if explicit then l1 else n1 in
+  let p2 := if explicit then l2 else n2 in
+  let tp := top l1seed truth rk sd p0 in
+  {| c_rk := rk; c_l0 := p0; c_l1 := p1; c_l2 := p2; c_pub := negb (authorised sd);
+     c_k1 := if p2 =? 31 then K1 (kdf rk p0) tp p1 else if 0 <? p1 then K1 (kdf rk p0) tp (p1 - 1) else nokey;
+     c_k2 := K2 (kdf rk p0) tp p1 p2 |}.
+
+Lemma ref_dc_explicit : dc_explicit_ok ref_dc.
+Proof.
+  intros sd rk l0 l1 l2 R0 R1 R2. unfold ref_dc. cbv zeta. cbn [c_rk c_l0 c_l1 c_l2].
+  replace ((0 <=? l0) && ((0 <=? l1) && (l1 <=? 31)) && ((0 <=? l2) && (l2 <=? 31))) with true by lia. auto.
+Qed.
+
+Lemma ref_dc_conforming : 0 <= n1 <= 31 -> 0 <= n2 <= 31 -> dc_conforming_ok kdf l1seed ref_dc truth.
+Proof.
+  intros N1 N2 sd rko l0 l1 l2. unfold ref_dc. cbv zeta. intros _.
+  set (rk := match rko with Some r => r | None => dflt end).
+  set (ex := (0 <=? l0) && ((0 <=? l1) && (l1 <=? 31)) && ((0 <=? l2) && (l2 <=? 31))).
+  set (p0 := if ex then l0 else n0). set (p1 := if ex then l1 else n1). set (p2 := if ex then l2 else n2).
+  assert (P1 : 0 <= p1 <= 31) by (subst p1 ex; destruct ((0 <=? l0) && ((0 <=? l1) && (l1 <=? 31)) && ((0 <=? l2) && (l2 <=? 31))) eqn:E; lia).
+  assert (P2 : 0 <= p2 <= 31) by (subst p2 ex; destruct ((0 <=? l0) && ((0 <=? l1) && (l1 <=? 31)) && ((0 <=? l2) && (l2 <=? 31))) eqn:E; lia).
+  clearbody p0 p1 p2 rk. cbn [c_rk c_l0 c_l1 c_l2 c_k2].
+  split; [exact P1|]. split; [exact P2|]. split; [|reflexivity].
+  unfold conforming, cenv_env. cbn [e_l1 e_l2 e_l1key e_l2key c_l1 c_l2 c_k1 c_k2].
+  split; [exact P1|]. split; [exact P2|]. split.
+  - intros E. replace (p2 =? 31) with true by lia. reflexivity.
+  - intros E. split; [reflexivity|]. intros Hp. replace (p2 =? 31) with false by lia. replace (0 <? p1) with true by lia. reflexivity.
+Qed.
+End RefDC.
+
+(* A toy instance (K := Z, a collision-poor arithmetic "KDF") and a concrete interleaved history. *)
+Module Toy.
+Definition tkdf (rk l0 k a b : Z) : Z := 3 * k + 5 * a + 7 * b + 11 * rk + 13 * l0 + 1.
+Definition tl1seed (d rk sd l0 : Z) : Z := 17 * d + 19 * rk + 23 * sd + 29 * l0.
+Definition tnokey : Z := 0.
+Definition ttruth (rk : Z) : Z := 1000 + rk.
+Definition tdc := ref_dc tkdf tl1seed tnokey ttruth 1 361 7 5 (fun _ => true).
+Definition tkey := key_at tkdf tl1seed ttruth.
+Definition trun := run_events tkdf tl1seed tnokey tdc.
+
+Lemma tdc_explicit : dc_explicit_ok tdc.
+Proof. apply ref_dc_explicit. Qed.
+Lemma tdc_conforming : dc_conforming_ok tkdf tl1seed tdc ttruth.
+Proof. apply ref_dc_conforming; lia. Qed.
+
+(* two unprotects of the same triple start before either RPC returns, the replies arrive in the
+   reverse order; then a covered request, a root key load, a request beyond the cached envelope
+   (served from the root key), a protect naming the root key, a protect via the DC *)
+Definition history : list (event (RK := Z)) :=
+  [Start (CUnprotect 0 1 361 3 4); Start (CUnprotect 0 1 361 3 2); Finish 1; Finish 0;
+   Start (CUnprotect 0 1 361 2 9); Start (CLoad 1 (ttruth 1)); Start (CUnprotect 0 1 361 5 0);
+   Start (CProtect 0 (Some 1) 361 7 5); Start (CProtect 0 None 361 7 5); Finish 0].
+Lemma history_adm : Forall (ev_adm tl1seed ttruth) history.
+Proof. repeat constructor; cbn; try lia. Qed.
+Lemma history_outcomes :
+  map (fun o => (o_key o, o_pos o, o_rpcs o)) (w_out (trun history)) =
+  [(Ok (tkey 1 0 361 3 2), (361, 3, 2), 1); (Ok (tkey 1 0 361 3 4), (361, 3, 4), 1);
+   (Ok (tkey 1 0 361 2 9), (361, 2, 9), 0); (Ok (tkey 1 0 361 5 0), (361, 5, 0), 0);
+   (Ok (tkey 1 0 361 7 5), (361, 7, 5), 0); (Ok (tkey 1 0 361 7 5), (361, 7, 5), 1)].
+Proof. vm_compute. reflexivity. Qed.
+
+(* the envelope _get_protection_gke_from_cache builds is not a conforming envelope *)
+Lemma prot_env_not_conforming : ~ conf tkdf tl1seed ttruth 0 (prot_env tnokey 1 361 3 4 false (tkey 1 0 361 3 4)).
+Proof.
+  intros [_ (_ & _ & _ & H)]. cbn [cenv_env prot_env e_l1 e_l2 e_l1key e_l2key c_l1 c_l2 c_k1 c_k2] in H.
+  destruct (H ltac:(lia)) as [_ H1]. specialize (H1 ltac:(lia)). vm_compute in H1. discriminate.
+Qed.
+
+(* the hypothesis on loads matters, with or without a cache: a wrong root key gives a wrong key *)
+Lemma wrong_root_key :
+  o_key (fst (unprotect tkdf tl1seed tnokey tdc (load_key empty_cache 1 777) 0 1 361 3 4)) <> Ok (tkey 1 0 361 3 4).
+Proof. vm_compute. discriminate. Qed.
+End Toy.
